@@ -77,8 +77,11 @@ Next ==
                /\ ok' = good
                /\ lastIn' = [k |-> e.in.k, a |-> e.in.a, out |-> e.out, sig |-> sig]
 
-(* INVARIANT: with -continue every rejected step is listed; with VF_TARGET only that signature fails  *)
-Judge == ok \/ (Target # "" /\ lastIn.sig # Target) \/ ~PrintT(<<"VF", "BAD", node, lastIn.sig, mon.w>>)
+(* INVARIANT.  Survey run (no VF_TARGET): every rejected step is listed, the invariant itself stays true  *)
+(* (PrintT is TRUE), so TLC does not reconstruct a trace for each of them.  With VF_TARGET = a signature *)
+(* the invariant fails at the first (shortest) path to a step with that signature: the replay.           *)
+Judge == IF Target = "" THEN ok \/ PrintT(<<"VF", "BAD", node, lastIn.sig, mon.w>>)
+         ELSE ok \/ lastIn.sig # Target
 
 (* the graph file is well formed: ids are line numbers, edges stay inside *)
 ASSUME \A n \in 1..Len(G) : G[n].id = n /\ \A k \in 1..Len(G[n].succ) : G[n].succ[k].to \in 1..Len(G)
